@@ -426,7 +426,8 @@ func runHTTP(x *core.Ctx) {
 	fa.tok["tok-bob"] = "bob"
 
 	sm := new(expvar.Map).Init()
-	h := httpd.NewHandler(true, rng.Bool(), false, false, rng.Bool(), sm, kit.DiagService().NewHTTPDHandler(), secret)
+	pprofOn := rng.Bool()
+	h := httpd.NewHandler(true, pprofOn, false, false, rng.Bool(), sm, kit.DiagService().NewHTTPDHandler(), secret)
 	h.AuthService = fa
 	writer := &pw{}
 	h.PointsWriter = writer
@@ -449,6 +450,13 @@ func runHTTP(x *core.Ctx) {
 				x.Inconclusive("AddRoute: " + err.Error())
 				return
 			}
+		}
+	}
+	// routes flagged BypassAuth are exempt from authentication only while pprof is exposed
+	for _, m := range methods {
+		if err := h.AddRoute(httpd.Route{Method: m, Pattern: "/bypass", HandlerFunc: sentinel(m + " /bypass"), BypassAuth: true}); err != nil {
+			x.Inconclusive("AddRoute: " + err.Error())
+			return
 		}
 	}
 	future := float64(time.Now().Add(24 * time.Hour).Unix())
@@ -501,7 +509,7 @@ func runHTTP(x *core.Ctx) {
 		{"authz-garbage", "", func(r *http.Request) { r.Header.Set("Authorization", "Negotiate zzz") }},
 	}
 	base := []string{"/kapacitor/v1", "/kapacitor/v1preview", "", "/kapacitor/v1/..", "/kapacitor/v1/../v1", "//kapacitor/v1", "/kapacitor//v1", "/kapacitor/v1/."}
-	tails := []string{"/tasks", "/tasks/", "/tasks/t1", "/tasks/t1/", "/tasks/../tasks/t1", "/tasks//t1", "/templates", "/templates/../tasks", "/tasks/t1/..", "/tasks/t1/../..", "/tasks/./t1", "/tasks/t1/x", "/database", "/database/db1_clean", "/write", "/ping", "/..", "/tasks/..%2ft1"}
+	tails := []string{"/bypass", "/bypass", "/tasks/../bypass", "/tasks", "/tasks/", "/tasks/t1", "/tasks/t1/", "/tasks/../tasks/t1", "/tasks//t1", "/templates", "/templates/../tasks", "/tasks/t1/..", "/tasks/t1/../..", "/tasks/./t1", "/tasks/t1/x", "/database", "/database/db1_clean", "/write", "/ping", "/..", "/tasks/..%2ft1"}
 	dbs := []string{"db1", "db_x", "db/x", "db_x_dirty", "", "db1_clean", "other"}
 
 	n := x.Case.N
@@ -527,7 +535,7 @@ func runHTTP(x *core.Ctx) {
 			}
 			u.RawQuery = q.Encode()
 		}
-		sub := fmt.Sprintf("%s %s cred=%s db=%s", m, p, c.name, db)
+		sub := fmt.Sprintf("%s %s cred=%s db=%s pprof=%v", m, p, c.name, db, pprofOn)
 		if !x.Announce(sub) {
 			continue
 		}
@@ -577,6 +585,10 @@ func runHTTP(x *core.Ctx) {
 			finalPath := parts[2]
 			x.Count("sentinel_runs", 1)
 			x.Nontrivial("ran:" + sub)
+			if strings.HasSuffix(parts[1], "/bypass") && pprofOn {
+				x.Count("bypass_route_served_with_pprof_exposed", 1)
+				continue // the configured exemption
+			}
 			if c.user == "" {
 				x.Violatef("http-served-without-credentials", fmt.Sprintf("cred=%s method=%s path=%q", c.name, m, p), sub,
 					"sentinel %q ran (status %d) although the credentials %q are not valid", r, rec.Code, c.name)
